@@ -21,6 +21,13 @@ class _Break(Exception):
     pass
 
 
+class Raised(Exception):
+    """the evaluated code reached a `raise` statement"""
+    def __init__(self, text):
+        Exception.__init__(self, text)
+        self.text = text
+
+
 class _Continue(Exception):
     pass
 
@@ -121,8 +128,20 @@ class Evaluator:
                 return list(self.ev(e.args[0], env))
             if fn == "bool" and len(e.args) == 1:
                 return bool(self.ev(e.args[0], env))
+            if fn == "len" and len(e.args) == 1 and not e.keywords:
+                return len(self.ev(e.args[0], env))
+            if fn in ("set", "frozenset") and len(e.args) <= 1 and not e.keywords:
+                return set(self.ev(e.args[0], env)) if e.args else set()
         if isinstance(e, (ast.GeneratorExp, ast.ListComp)):
             return list(self._gen(e, env))
+        if isinstance(e, ast.SetComp):
+            return set(self._gen(e, env))
+        if isinstance(e, ast.Set):
+            return {self.ev(x, env) for x in e.elts}
+        if isinstance(e, ast.BinOp) and isinstance(e.op, (ast.BitAnd, ast.BitOr, ast.Sub)):
+            a, b = self.ev(e.left, env), self.ev(e.right, env)
+            if isinstance(a, (set, frozenset)) and isinstance(b, (set, frozenset)):
+                return a & b if isinstance(e.op, ast.BitAnd) else a | b if isinstance(e.op, ast.BitOr) else a - b
         raise Unknown(ast.unparse(e)[:50])
 
     def _gen(self, g, env):
@@ -168,6 +187,14 @@ class Evaluator:
                     self.run(st.orelse, env)
             elif isinstance(st, ast.Assign) and len(st.targets) == 1:
                 self.bind(st.targets[0], self.ev(st.value, env), env)
+            elif isinstance(st, ast.Raise):
+                raise Raised(ast.unparse(st.exc)[:80] if st.exc is not None else "")
+            elif isinstance(st, ast.Expr) and isinstance(st.value, ast.Call) and isinstance(st.value.func, ast.Attribute) \
+                    and st.value.func.attr in ("append", "add") and isinstance(st.value.func.value, ast.Name) \
+                    and isinstance(env.get(st.value.func.value.id), (list, set)) and len(st.value.args) == 1 and not st.value.keywords:
+                box = env[st.value.func.value.id]
+                item = self.ev(st.value.args[0], env)
+                box.append(item) if isinstance(box, list) else box.add(item)
             elif isinstance(st, ast.Break):
                 raise _Break()
             elif isinstance(st, ast.Continue):
